@@ -55,15 +55,19 @@ def run():
         size = rnd.choice([2, 3, 5, 8, 12, 20, 50]) if not quick else rnd.choice([2, 3, 5, 8, 12])
         blocks = []
         for i in range(size):
-            kind = rnd.choice(["rule", "mem", "grammar", "split", "hostile", "zero", "long", "deep", "dupterms", "dupterms",
-                               "stmt"])
+            kind = rnd.choice(["rule", "rule", "mem", "grammar", "split", "hostile", "zero", "long", "deep", "dupterms", "dupterms",
+                               "stmt", "wrap", "tradeoff", "identity", "symm", "overlap"])
             if kind == "stmt":
                 st, _n = gen.gen_stmt_block(rnd)
                 b = [p for s_ in st for p in s_]
             else:
                 b, _ = gen.gen_block(rnd, kind)
             blocks.append(("g%d_b%d" % (g, i), b, kind))
-        # a block that appears twice in the history
+        # blocks that appear twice in the history: state keyed on the content of a block (a folded constant expression, a
+        # term, an identifier) only leaks into a later block with the same content.  Always one duplicate, preferably of
+        # a block in which rules or constant folding fire, often a second one.
+        folding = [x for x in blocks if x[2] in ("rule", "zero", "wrap", "tradeoff", "identity", "dupterms")]
+        blocks.append(rnd.choice(folding or blocks))
         if size >= 3 and rnd.random() < 0.5:
             blocks.append(blocks[0])
         seqs = {"forward": list(blocks), "reverse": list(reversed(blocks))}
